@@ -61,10 +61,17 @@ def _write(i, tag, samples, mode="multi"):
     return d
 
 
+def _pack(rng):
+    """-l / pack_size.  The format's pack cardinality is the constant 50 (params stream, pack closing) whatever the
+    option says; a writer that lets the option leak into `params` or into the pack layout is caught by params_ok /
+    the pack rules of the strict decoder only when the option differs from 50"""
+    return rng.choice([50, 50, 1, 2, 5, 20, 49, 51, 100, 1000])
+
+
 def small_params(rng, k=None, s=None):
     k = k or rng.choice([9, 11, 15, 21, 31, 32])
     s = s or rng.choice([50, 100, 200, 500, 1000, 60000])
-    return f"{k},{s},{rng.choice([15, 18, 20, 25, 32])},50,{rng.choice([1, 2, 3, 4, 8, 16])},{rng.choice([1 << 31, 1 << 20, 4096])},{rng.choice([0, 0, 0, 0.1])}"
+    return f"{k},{s},{rng.choice([15, 18, 20, 25, 32])},{_pack(rng)},{rng.choice([1, 2, 3, 4, 8, 16])},{rng.choice([1 << 31, 1 << 20, 4096])},{rng.choice([0, 0, 0, 0.1])}"
 
 
 def shape_ordinary(rng):
@@ -76,7 +83,7 @@ def shape_tiny_refs(rng):
     k = rng.choice([9, 11, 15])
     s = [(f"S{si:03d}", [(f"c{c}", G.rand_seq(rng, rng.choice([k, k + 1, k + 3, 2 * k, 30, 45]))) for c in range(rng.choice([1, 3, 6]))])
          for si in range(rng.choice([2, 5, 8]))]
-    return s, f"{k},{rng.choice([20, 50])},15,50,{rng.choice([1, 2])},{1 << 31},0", "multi"
+    return s, f"{k},{rng.choice([20, 50])},15,{_pack(rng)},{rng.choice([1, 2])},{1 << 31},0", "multi"
 
 
 def shape_repetitive(rng):
@@ -100,7 +107,7 @@ def shape_big_lz(rng):
     """> 50 entries in one LZ group, > 50 samples = several catalogue batches"""
     ns = rng.choice([64, 70, 103])
     k, sz = rng.choice([(11, 100), (15, 200), (11, 200)])
-    p = f"{k},{sz},{rng.choice([15, 20, 25])},50,{rng.choice([1, 2, 4, 8])},{1 << 31},0"
+    p = f"{k},{sz},{rng.choice([15, 20, 25])},{_pack(rng)},{rng.choice([1, 2, 4, 8])},{1 << 31},0"
     return G.gen_big_group(rng, ns, clen=rng.choice([300, 450]), div=0.03), p, "multi"
 
 
@@ -255,6 +262,9 @@ def oracle(case, line):
         return "no archive / no extraction: " + line[:200]
     if st != "OK":
         return "ragc's reader failed on its own archive: " + line[:200]
+    if str(MODEL.get(case, "")).startswith("ERR"):
+        # the property itself: a reader built only from the format rules must recover every archive ragc writes
+        return "the format-rule (strict) decoder rejects an archive ragc wrote: " + str(MODEL[case])
     truth = json.load(open(os.path.join(case.split(" ")[1], "truth.json")))
     got = parse_cat(cat)
     if [s for s, _ in got] != [s.encode() for s, _ in truth]:
